@@ -203,6 +203,7 @@ def _jsonable(o):
 def _shard_main(args):
     modname, tier, seed, k, n_examples, wall = args
     os.environ.setdefault("PYTHONHASHSEED", "0")
+    os.environ["VERIF_SHARD"] = str(k)
     try:
         prop = importlib.import_module(modname)
         stats = Stats()
